@@ -438,7 +438,29 @@ J gen_tunnel(uint64_t seed, const J &ov)
 		f.set("p_drop", r.chance(0.8) ? r.uniform() * (r.chance(0.2) ? (hs ? 0.6 : 1.0) : (hs ? 0.3 : 0.5)) : 0.0);
 		f.set("p_dup", r.chance(0.6) ? r.uniform() * 0.4 : 0.0);
 		f.set("p_delay", r.chance(0.6) ? r.uniform() * 0.5 : 0.0);
-		f.set("max_delay_us", (long long)r.range(1000, 5000000));
+		long long md = (long long)r.range(1000, 5000000);
+		double settle = 0;
+		if (hs && r.chance(0.3)) {
+			// late, not lost: datagrams (and copies of them) held back for longer than the client's patience with a handshake step
+			// (1+2+3+4+5 s), so that requests of a step the client has given up arrive after the requests of the step that replaced it.
+			// The whole period of trouble stays below 40 s; the recovery clock starts when the last held datagram has arrived.
+			md = (long long)r.range(5000000, 20000000);
+			if (fdur + md / 1e6 > 38) { fdur = 38 - md / 1e6; f.set("t1_us", (long long)((0.15 + fdur) * 1e6)); }
+			settle = md / 1e6;
+			f.set("settle_us", md);
+			if (r.chance(0.5)) { f.set("p_delay", 0.2 + r.uniform() * 0.6); f.set("p_dup", r.uniform() * 0.5); }
+		} else if (hs && r.chance(0.3)) {
+			// the same, aimed: every request (or every reply, or both) of ONE handshake step is held back for 6-20 s, everything else
+			// passes under the run's ordinary fates - the step is given up or repeated and its stragglers arrive during later steps
+			static const char steps[] = "soynrzlvi";
+			std::string st(1, steps[r.range(0, 8)]);
+			long long hd = (long long)r.range(6000000, 20000000);
+			f.set("hold_cmd", st); f.set("hold_delay_us", hd); f.set("hold_dir", (int)r.range(0, 2));
+			if (fdur + hd / 1e6 > 38) { fdur = 38 - hd / 1e6; f.set("t1_us", (long long)((0.15 + fdur) * 1e6)); }
+			settle = hd / 1e6 + 3.5;
+			f.set("settle_us", (long long)(settle * 1e6));
+		}
+		f.set("max_delay_us", md);
 		cfg.set("faults", f);
 		// packets that must be deliverable: fit in 16 fragments both ways (reference arithmetic, Base32 worst case upstream)
 		int fit = 300;
@@ -456,7 +478,7 @@ J gen_tunnel(uint64_t seed, const J &ov)
 		gen_traffic(r, ops, "c0", "srv", (int)r.range(5, 40), 0.1, 1 + fdur, ser, 1200, true);
 		gen_traffic(r, ops, "srv", "c0", (int)r.range(5, 40), 0.1, 1 + fdur, ser, 1200, true);
 		// ... and continuing periodic traffic afterwards, both sides
-		double tend = 1 + fdur + 60 + 45;
+		double tend = 1 + fdur + settle + 60 + 45;
 		cfg.set("period_s", p);
 		for (double t = 1 + fdur + r.uniform() * p; t < tend; t += p) {
 			for (int side = 0; side < 2; side++) {
